@@ -43,6 +43,8 @@ class Recorder:
     def __init__(self):
         self.items = []
         self.active = True
+        # levels found stale in the caller's `all_levels` dict (see `_stale_levels`)
+        self.stale = []
 
 
 REC = Recorder()
@@ -57,11 +59,33 @@ def _fmt_levels(snap):
         for j, us in sorted(snap.items()))
 
 
+def _stale_levels(self, all_levels):
+    """Levels whose entry in the caller's dict is not (as a set) the set of nodes at that
+    level: the invariant `LevelsOK` of lean/DDProofs/SwapLevelsEq.lean, on the REAL code.
+    Every level is compared, not only the two that `swap` touches."""
+    try:
+        cur = _orig_levels(self)
+    except Exception:  # noqa: BLE001  (a node whose level is no variable's level)
+        return ['?']
+    return sorted(
+        j for j in set(cur) | set(all_levels)
+        if set(all_levels.get(j, ())) != set(cur.get(j, ())))
+
+
 def _swap_w(self, x, y, all_levels=None):
     if all_levels is not None:
+        # the dict the caller computed once and earlier swaps patched: exact on entry ...
+        bad = _stale_levels(self, all_levels)
+        if bad:
+            REC.stale.append(('before', bad))
         snap = {j: list(s) for j, s in all_levels.items()}
         REC.items.append('swap=' + _fmt_levels(snap))
-        return _orig_swap(self, x, y, all_levels)
+        r = _orig_swap(self, x, y, all_levels)
+        # ... and exact again, for ALL levels, after `all_levels[x] = newy; all_levels[y] = newx`
+        bad = _stale_levels(self, all_levels)
+        if bad:
+            REC.stale.append(('after', bad))
+        return r
     self._verif_snap = None
     self._verif_want_snap = True
     try:
@@ -264,12 +288,17 @@ class Impl:
     def run(self, line):
         """Return `(answer, schedule)`."""
         REC.items = []
+        REC.stale = []
         fields = line.split('\t')
         try:
             ans = self._run(fields)
             out = 'ok ' + ans
         except Exception as e:  # noqa: BLE001
             out = 'err ' + err_name(e)
+        if REC.stale and not os.environ.get('VERIF_NO_LEVELS_CHECK'):
+            # (the switch exists only to measure what the check adds: see seeded/C07j)
+            # never an answer of the model: reported as a disagreement, like `SCHED-LEFT`
+            out += ' LEVELS-STALE'
         return out, take_schedule()
 
     def _run(self, f):
